@@ -3,7 +3,7 @@
 # the quick check of the property it belongs to, expect a VIOLATION, restore.
 # usage: selftest/revert-fixes.sh            (leaves /repo as found)
 cd "$(dirname "$0")/.."
-declare -A PROP=( [9288d04]=C19 [ed9b7d4]=C19 [39982ad]=C03 [3351948]=C04 [423f497]=C04 [426090a]=C04 [4c697be]=C10 [72e1037]=C10 [eccafbc]=C10 [067256a]=C04 [7b1de17]=C11 [c843097]=C11 [55ed310]=C11 [ef73bf7]=C09 [704859f]=C09 [e7c6a61]=C13 [90616b3]=C14 [786b971]=C14 )
+declare -A PROP=( [153a2c1]=C20 [cf0d7f6]=C20 [9288d04]=C19 [ed9b7d4]=C19 [39982ad]=C03 [3351948]=C04 [423f497]=C04 [426090a]=C04 [4c697be]=C10 [72e1037]=C10 [eccafbc]=C10 [067256a]=C04 [7b1de17]=C11 [c843097]=C11 [55ed310]=C11 [ef73bf7]=C09 [704859f]=C09 [e7c6a61]=C13 [90616b3]=C14 [786b971]=C14 )
 rc=0
 for c in "${!PROP[@]}"; do
   p=${PROP[$c]}
